@@ -1791,7 +1791,13 @@ class Rectifier(_Component):
             )
         # mosfet mode
         v = abs(vi[0]) - 2 * self._params["rs"] * io
-        return abs(v), STATE_DEFAULT
+        if v > 0.0:
+            return v, STATE_DEFAULT
+        raise ValueError(
+            "Unstable system: Rectifier component '{}' has zero output voltage".format(
+                self._params["name"]
+            )
+        )
 
     def _solv_pwr_loss(self, vi, vo, ii, io, ta, phase, phase_conf=[], pstate={}):
         """Calculate power and loss in Rectifier"""
